@@ -49,6 +49,13 @@ def run(tier):
         if len(ck.samples) < 2 and ".map(" in src:
             ck.sample({"program": p["name"], "source": src[-700:], "expected_output": v["out"][:14]})
 
+    # interplay: this check's programs inside stacks of other features' constructs, and every profile's programs inside
+    # this feature's constructs (vfpy/gen/feat_ctx.py); the model decides what they must print
+    from ..gen import feat_ctx as _ctx
+    for _p in _ctx.interplay(ck.rng.fork("interplay"), profiles(ck.findings.avoid_tags()), "C18", *((300, 300) if quick else (3000 * common.TS, 3000 * common.TS))):
+        for _c in _p["ctx"]:
+            ck.count("nesting_context_" + _c)
+        plist.append(_p)
     checked, discarded = modelcheck.check_programs(ck, plist, on_result=seen)
     ck.coverage["programs_checked"] = checked
     ck.coverage["programs_discarded_by_model"] = discarded
